@@ -1,3 +1,4 @@
+import Ebu.Spec.Flow
 import Ebu.Model.Upcast
 import Ebu.Proofs.Upcast
 import Ebu.Props.C03
@@ -63,5 +64,16 @@ example :
     (register [⟨1, 2, 2, false, 7⟩, ⟨2, 3, 3, false, 8⟩] ⟨3, 1, 1, false, 9⟩ false = .error .cycle) ∧
     ((apply [⟨1, 2, 1, false, 7⟩] false [5] 1).err = some .loop) := by
   refine ⟨rfl, ⟨_, rfl⟩, rfl, by decide⟩
+
+
+/-! ### obligations on the control flow of the CURRENT source (`Ebu/Generated/Flow.lean`, regenerated from /repo on every run) -/
+
+/-- OBLIGATION: `register` validates its arguments, then – under the write lock, unlocked by a `defer` registered at
+once – runs the cycle check and inserts the upcaster (M6's `register` is check-then-insert in one step) -/
+theorem flow_register_shape : Ebu.Flow.registerShape = true := by decide +kernel
+
+/-- OBLIGATION: `apply` marks the current type, refuses a declared target that was already seen, calls the upcaster,
+and refuses a RETURNED type that was already seen before it advances – the two guards `apply_terminates` rests on -/
+theorem flow_apply_shape : Ebu.Flow.applyShape = true := by decide +kernel
 
 end Ebu.Props.C16
